@@ -88,12 +88,24 @@ def harness(kind="release"):
     key = "h-" + kind
     if key in _done:
         return _done[key]
-    _link_repo()
     tdir = os.path.join(BUILD, "harness" + SUFFIX)
-    hdir = os.path.join(VERIF, "harness")
+    if SUFFIX:
+        # another tree than /repo: private copy of the harness sources with its own `.build/repo` link
+        alt = os.path.join(BUILD, "alt" + SUFFIX)
+        hdir = os.path.join(alt, "harness")
+        os.makedirs(os.path.join(alt, ".build"), exist_ok=True)
+        _run(["rsync", "-a", "--delete", "--exclude", "target", os.path.join(VERIF, "harness") + "/", hdir + "/"], what="copy harness sources")
+        link = os.path.join(alt, ".build", "repo")
+        if not (os.path.islink(link) and os.readlink(link) == REPO):
+            if os.path.lexists(link):
+                os.unlink(link)
+            os.symlink(REPO, link)
+    else:
+        _link_repo()
+        hdir = os.path.join(VERIF, "harness")
     profile = "release" if kind == "release" else "ovf"
     cmd = ["cargo", "build", "--offline", "--profile", profile, "--target-dir", tdir]
-    with _Lock("harness"):
+    with _Lock("harness" + SUFFIX):
         _run(cmd, cwd=hdir, what="build harness (%s)" % kind)
     out = os.path.join(tdir, profile, "vharness")
     if not os.path.exists(out):
